@@ -6,7 +6,7 @@ from . import _trunc
 from ..rules import must_precede, must_follow
 from ..cfg import cfg_of, always_raises
 from ..effects import MUTATING
-from ..astutil import dotted, get_arg, derived, norm, enclosing, names_in, defs_of
+from ..astutil import pubnorm, dotted, get_arg, derived, norm, enclosing, names_in, defs_of
 from ..srcmodel import own_nodes, AnalysisError
 from ._shared import raised_names
 from .C16 import d6_archive_copy
@@ -117,7 +117,7 @@ def run(ctx):
                 e = e.body if _fold(e.test, {'dtype': None}) else e.orelse
             except Exception:
                 return None
-        return norm(e)
+        return pubnorm(e)
     ok = isinstance(a, ast.Name) and a.id == 'dtype' and bool(dd) and all(
         _dflt(v) in ('self.dtype', 'self._values.dtype') and
         runs_under(g, st, _trunc.folder({'dtype': None}, g)) is not False and
@@ -183,6 +183,8 @@ def run(ctx):
     from ..pathcond import outcome_under
     pth, src_ = asarray.params[0], asarray.params[1]
     env = {f'isinstance({src_}, Array)': True, f'{pth} == {src_}.path': True, f'{src_}.path == {pth}': True,
+           f'{pth} == {src_}._path': True, f'{src_}._path == {pth}': True, f'{pth} != {src_}._path': False,
+           f'{src_}._path != {pth}': False,
            f'{pth} != {src_}.path': False, f'{src_}.path != {pth}': False,
            f'{pth}.samefile({src_}.path)': True, f'{src_}.path.samefile({pth})': True}
     ft = _trunc.folder(env, asarray)
